@@ -79,8 +79,13 @@ PROJECTIONS = {
 def project(pid, hexreply):
     """projection of an `ok x<hex>` reply for a property; None if the reply is not a byte reply"""
     w = hexreply.split()
-    if len(w) != 2 or w[0] != 'ok' or not w[1].startswith('x'):
-        return ('raw', hexreply.split()[0] if hexreply else '')
+    if len(w) != 2 or w[0] != 'ok' or not w[1].startswith('x') or not w[1][1:9].lower().startswith('4d546864'):
+        # not an SMF reply: the streams registered for a property observe the quantities its theorems talk about
+        # (interval sizes, scale notes, parse trees, converted instances ...), so the whole ok-reply is the
+        # projection; failures are compared by outcome class.  C09 only talks about the outcome class.
+        if pid == 'C09' or not hexreply.startswith('ok'):
+            return ('class', w[0] if w else '')
+        return ('reply', hexreply)
     try:
         f = decode(bytes.fromhex(w[1][1:]))
     except Exception as e:
